@@ -420,14 +420,37 @@ func errCode(r *rig.Resp) string {
 	return fmt.Sprintf("http-%d", r.Status)
 }
 
-type stageErr struct{ stage, what string }
+type stageErr struct{ stage, what, sig string }
+
+// flowFail turns a failed preparatory flow into a violation: the advertised endpoint is
+// not addressable / not routed (same signature as the URL probe uses: one per defect
+// site), or a valid code flow was refused.
+func (e *env) flowFail(rule, outcomePrefix string, se *stageErr, what string) engine.Result {
+	sig := se.sig
+	if sig == "" {
+		sig = "C19/code-flow-failed/" + e.router + "/" + se.stage
+	}
+	return engine.Bad(rule, outcomePrefix+":"+se.stage, sig, what+": "+se.what)
+}
+
+func (e *env) addrErr(stage, key, why string) *stageErr {
+	se := &stageErr{stage: stage, what: key + " " + why}
+	if why == "not-under-issuer" {
+		se.sig = "C19/advertised-url-not-under-issuer/" + e.router + "/" + key
+	}
+	return se
+}
+
+func (e *env) unrouted(stage, key string, resp *rig.Resp) *stageErr {
+	return &stageErr{stage: stage, what: fmt.Sprintf("%s=%q answers %d", key, e.str(key), resp.Status), sig: "C19/advertised-url-not-routed/" + e.router + "/" + key}
+}
 
 // code runs authorization request -> login -> callback through the advertised
 // authorization endpoint and returns the redirect back to the RP.
 func (e *env) code(clientID string, q url.Values) (*url.URL, *stageErr) {
 	ap, why := e.rel("authorization_endpoint")
 	if why != "" {
-		return nil, &stageErr{"authorize", "authorization_endpoint " + why}
+		return nil, e.addrErr("authorize", "authorization_endpoint", why)
 	}
 	cl := e.r.Core.Cfg.Clients[clientID]
 	full := url.Values{"client_id": {clientID}, "redirect_uri": {cl.Redirects[0]}, "response_type": {"code"}, "scope": {"openid"}, "state": {"st-query"}, "nonce": {"n-1"}}
@@ -435,18 +458,21 @@ func (e *env) code(clientID string, q url.Values) (*url.URL, *stageErr) {
 		full[k] = v
 	}
 	resp := e.do("GET", ap, full, nil)
+	if resp.Status == 404 || resp.Status == 405 {
+		return nil, e.unrouted("authorize", "authorization_endpoint", resp)
+	}
 	loc := resp.Location()
 	if resp.Status/100 != 3 || loc == nil || !strings.HasPrefix(loc.Path, "/login") || loc.Query().Get("authRequestID") == "" {
-		return nil, &stageErr{"authorize", fmt.Sprintf("%s: %d %s %.200s", errCode(resp), resp.Status, resp.Header.Get("Location"), resp.Body)}
+		return nil, &stageErr{stage: "authorize", what: fmt.Sprintf("%s: %d %s %.200s", errCode(resp), resp.Status, resp.Header.Get("Location"), resp.Body)}
 	}
 	id := loc.Query().Get("authRequestID")
 	if err := e.r.Core.Login(id, "u1"); err != nil {
-		return nil, &stageErr{"login", err.Error()}
+		return nil, &stageErr{stage: "login", what: err.Error()}
 	}
 	resp = e.do("GET", ap+"/callback", url.Values{"id": {id}}, nil)
 	loc = resp.Location()
 	if resp.Status/100 != 3 || loc == nil || loc.Query().Get("code") == "" {
-		return nil, &stageErr{"callback", fmt.Sprintf("%s: %d %s %.200s", errCode(resp), resp.Status, resp.Header.Get("Location"), resp.Body)}
+		return nil, &stageErr{stage: "callback", what: fmt.Sprintf("%s: %d %s %.200s", errCode(resp), resp.Status, resp.Header.Get("Location"), resp.Body)}
 	}
 	return loc, nil
 }
@@ -454,13 +480,17 @@ func (e *env) code(clientID string, q url.Values) (*url.URL, *stageErr) {
 func (e *env) token(form url.Values, auth string) (*rig.Resp, *stageErr) {
 	tp, why := e.rel("token_endpoint")
 	if why != "" {
-		return nil, &stageErr{"token", "token_endpoint " + why}
+		return nil, e.addrErr("token", "token_endpoint", why)
 	}
 	h := map[string]string{}
 	if auth != "" {
 		h["Authorization"] = auth
 	}
-	return e.do("POST", tp, form, h), nil
+	resp := e.do("POST", tp, form, h)
+	if resp.Status == 404 || resp.Status == 405 {
+		return nil, e.unrouted("token", "token_endpoint", resp)
+	}
+	return resp, nil
 }
 
 func (e *env) secret(clientID string) string { return e.r.Core.Cfg.Clients[clientID].Secret }
@@ -477,7 +507,7 @@ func (e *env) tokens(clientID, scope string) (*rig.Resp, *stageErr) {
 		return nil, se
 	}
 	if resp.Status != 200 || resp.Str("access_token") == "" {
-		return resp, &stageErr{"token", fmt.Sprintf("%s: %d %.200s", errCode(resp), resp.Status, resp.Body)}
+		return resp, &stageErr{stage: "token", what: fmt.Sprintf("%s: %d %.200s", errCode(resp), resp.Status, resp.Body)}
 	}
 	return resp, nil
 }
@@ -589,7 +619,7 @@ func (e *env) probeIssuer(issClass string) engine.Result {
 	const rule = "issuer-equals-iss-of-minted-tokens"
 	tr, se := e.tokens("webjwt", "openid")
 	if se != nil {
-		return engine.Bad(rule, "no-token:"+se.stage, "C19/code-flow-failed/"+e.router+"/"+se.stage, "a valid code flow through the advertised endpoints produced no tokens: "+se.what)
+		return e.flowFail(rule, "no-token", se, "a valid code flow through the advertised endpoints produced no tokens")
 	}
 	idc := jwtPayload(tr.Str("id_token"))
 	if idc == nil {
@@ -664,7 +694,10 @@ func (e *env) probeURLs(devCap bool) engine.Result {
 			if se.stage != "token" {
 				k = "authorization_endpoint"
 			}
-			return engine.Bad(serves, "wrong-function:"+se.stage, "C19/advertised-url-wrong-function/"+e.router+"/"+k, "code flow through the advertised authorization and token endpoints failed: "+se.what)
+			if se.sig == "" {
+				se.sig = "C19/advertised-url-wrong-function/" + e.router + "/" + k
+			}
+			return e.flowFail(serves, "wrong-function", se, "code flow through the advertised authorization and token endpoints failed")
 		}
 		access, idt = tr.Str("access_token"), tr.Str("id_token")
 	}
@@ -758,14 +791,14 @@ func (e *env) probeGrant(short string) engine.Result {
 	case "code":
 		loc, se := e.code("web", nil)
 		if se != nil {
-			return engine.Bad(rule, "no-code:"+se.stage, "C19/code-flow-failed/"+e.router+"/"+se.stage, "cannot obtain a code through the advertised authorization endpoint: "+se.what)
+			return e.flowFail(rule, "no-code", se, "cannot obtain a code through the advertised authorization endpoint")
 		}
 		form.Set("code", loc.Query().Get("code"))
 		form.Set("redirect_uri", e.r.Core.Cfg.Clients["web"].Redirects[0])
 	case "refresh":
 		tr, se := e.tokens("web", "openid offline_access")
 		if se != nil {
-			return engine.Bad(rule, "no-token:"+se.stage, "C19/code-flow-failed/"+e.router+"/"+se.stage, "cannot obtain tokens to refresh: "+se.what)
+			return e.flowFail(rule, "no-token", se, "cannot obtain tokens to refresh")
 		}
 		rt := tr.Str("refresh_token")
 		if rt == "" {
@@ -780,7 +813,7 @@ func (e *env) probeGrant(short string) engine.Result {
 		// belongs to C09/C15, not to this property)
 		tr, se := e.tokens("webjwt", "openid")
 		if se != nil {
-			return engine.Bad(rule, "no-token:"+se.stage, "C19/code-flow-failed/"+e.router+"/"+se.stage, "cannot obtain a subject token: "+se.what)
+			return e.flowFail(rule, "no-token", se, "cannot obtain a subject token")
 		}
 		auth = rig.Basic("webjwt", e.secret("webjwt"))
 		form.Set("subject_token", tr.Str("access_token"))
@@ -816,7 +849,10 @@ func (e *env) probeGrant(short string) engine.Result {
 	}
 	resp, se := e.token(form, auth)
 	if se != nil {
-		return engine.OK("token-endpoint-not-addressable", "n/a")
+		if se.sig == "" {
+			return engine.OK("token-endpoint-not-advertised", "n/a")
+		}
+		return e.flowFail(rule, "token-endpoint", se, "the advertised token endpoint cannot be used")
 	}
 	code := errCode(resp)
 	outcome := "error:" + code
@@ -861,14 +897,14 @@ func (e *env) probePKCE() engine.Result {
 	}
 	right, r1, se := run(verifier)
 	if se != nil {
-		if !advertised {
+		if !advertised && se.sig == "" {
 			return engine.OK(rule, "flow-unavailable")
 		}
-		return engine.Bad(rule, "no-code:"+se.stage, "C19/code-flow-failed/"+e.router+"/"+se.stage, "challenged flow cannot be started: "+se.what)
+		return e.flowFail(rule, "no-code", se, "challenged flow cannot be started")
 	}
 	wrong, r2, se := run(other)
 	if se != nil {
-		return engine.Bad(rule, "no-code:"+se.stage, "C19/code-flow-failed/"+e.router+"/"+se.stage, "second challenged flow cannot be started: "+se.what)
+		return e.flowFail(rule, "no-code", se, "second challenged flow cannot be started")
 	}
 	outcome := "right:" + right + ",wrong:" + wrong
 	if advertised {
@@ -893,6 +929,9 @@ func (e *env) probeRequestObject() engine.Result {
 	loc, se := e.code("jwt", url.Values{"request": {ro}})
 	outcome := ""
 	detail := ""
+	if se != nil && se.sig != "" {
+		return e.flowFail(rule, "no-code", se, "the advertised authorization endpoint cannot be used")
+	}
 	switch {
 	case se != nil:
 		outcome, detail = "refused@"+se.stage, se.what
@@ -932,7 +971,7 @@ func issuerGridCase(v engine.Vec) engine.Result {
 			want, rule = "reject", "http-without-insecure-opt-in"
 		}
 	case "listed":
-		want, rule = "reject", "empty/host-less/query/fragment"
+		want, rule = "reject", "listed:empty,host-less,query,fragment"
 	}
 	var err error
 	docIssuer := ""
@@ -984,7 +1023,7 @@ func pathGridCase(v engine.Vec) engine.Result {
 	case "clean":
 		want, rule = "accept", "clean-path"
 	case "listed":
-		want, rule = "reject", "path-with-query/fragment"
+		want, rule = "reject", "listed:path-with-query-or-fragment"
 	}
 	restoreDefaults()
 	defer restoreDefaults()
